@@ -18,7 +18,7 @@ CApply(i, n) == Step(<<"capply", i, n>>) /\ cpos' = [cpos EXCEPT ![i] = cpos[i] 
 CSeek(i, p) == Step(<<"cseek", i, p>>) /\ cpos' = [cpos EXCEPT ![i] = p] /\ UNCHANGED hlen
 CPos(i) == Step(<<"cpos", i, 0>>) /\ UNCHANGED <<cpos, hlen>>
 HUpd(j, n) == hlen[j] >= 0 /\ Step(<<"hupd", j, n>>) /\ hlen' = [hlen EXCEPT ![j] = hlen[j] + n] /\ UNCHANGED cpos
-HClone(j, k) == hlen[j] >= 0 /\ hlen[k] < 0 /\ Step(<<"hclone", j, k>>) /\ hlen' = [hlen EXCEPT ![k] = hlen[j]] /\ UNCHANGED cpos
+HClone(j, k) == hlen[j] >= 0 /\ k # j /\ Step(<<"hclone", j, k>>) /\ hlen' = [hlen EXCEPT ![k] = hlen[j]] /\ UNCHANGED cpos
 HReset(j) == hlen[j] >= 0 /\ Step(<<"hreset", j, 0>>) /\ hlen' = [hlen EXCEPT ![j] = 0] /\ UNCHANGED cpos
 HFinReset(j) == hlen[j] >= 0 /\ Step(<<"hfinreset", j, 0>>) /\ hlen' = [hlen EXCEPT ![j] = 0] /\ UNCHANGED cpos
 Init == /\ cpos = [i \in Ciphers |-> 0]
